@@ -508,7 +508,10 @@ class Machine:
                 order = self.decls.enums[en][vi][1] or []
                 return EnumV(en, vi, {vi: [vals[f] for f in order]})
             order = self.canon.get(name) or self.decls.structs.get(name)
-            if order is None: raise Inconclusive('struct decl ' + name)
+            if order is None:
+                # a struct with no declaration in the sources (generated by a macro, e.g. serde's `__SerializeWith`): rustc's MIR printer lists
+                # the fields of an aggregate in declaration (= index) order, which is the order place projections use
+                order = [f for f, _ in kv]; self.canon[name] = order
             if set(order) != set(vals): raise Inconclusive('struct fields mismatch for %s: %s vs %s' % (name, order, list(vals)))
             return [vals[f] for f in order]
         if k == 'adt_tuple':
@@ -854,6 +857,12 @@ class Machine:
             # helper type generated inside a derive (serde's __Field / __Visitor of `impl Deserialize for Owner`)
             owner, helper = mh.group(2).split('::')[-1], mh.group(3)
             o = [f for f in cands if f.impl is not None and self.decls.impl_info(f.impl)['self_base'] == owner and helper in f.ret and f.name.count('<impl at') >= 2]
+            if len(o) == 1: return o[0]
+        mg = re.match(r"&?(?:mut )?(__\w+)\b", self_ty or '')
+        if mg:
+            # helper type generated inside a derive and named at the call site without its owner (serde's `__SerializeWith<'_, T>` for a
+            # `serialize_with` field): its impl is nested in the owner's derived impl; identify it by the receiver type of the method
+            o = [f for f in cands if f.name.count('<impl at') >= 2 and f.args and re.match(r"&?(?:mut )?%s\b" % mg.group(1), f.args[0][1])]
             if len(o) == 1: return o[0]
         if self_ty is None:
             c = [f for f in cands if f.impl is None]
